@@ -94,6 +94,11 @@ class C01(Prop):
         ref = astn.tree(ref_text)
         b_ok = mdit.AVAILABLE and not (set(feats) & B_EXCLUDED)
         ref_b = mdit.tokens(ref_text) if b_ok else None
+        if b_ok and mdit.skeleton(ref_text) != mdit.skeleton_of_tree(ref):
+            # the two readers already disagree on the block structure of the INPUT (dialect difference, e.g. a setext
+            # heading whose text contains an escaped pipe is a table for markdown-it): oracle B has no common ground
+            b_ok = False
+            col.count("oracleB_skipped_readers_disagree_on_input")
         for f in feats:
             col.hist("features", f)
         for (w, sem) in opts:
